@@ -102,7 +102,7 @@ class Ctx:
         if extra:
             rec["extra"] = extra
         h = hashlib.sha1(_canon([self.pid, clause, case]).encode()).hexdigest()[:12]
-        d = os.path.join(VERIF, "replay")
+        d = os.environ.get("VERIF_REPLAY_DIR") or os.path.join(VERIF, "replay")      # (scratch runs against seeded trees)
         os.makedirs(d, exist_ok=True)
         path = os.path.join(d, "%s-%s.json" % (self.pid, h))
         if len(self.violations) < 200:
